@@ -17,6 +17,7 @@ def parseOp : List String → Option Op
   | ["f", r] => some (.finish (natTok r))
   | ["cr", c] => some (.connReady (natTok c))
   | ["cc", c] => some (.connClose (natTok c))
+  | ["ce", c] => some (.connFail (natTok c))
   | ["run"] => some .run
   | ["t", ms] => some (.tick (natTok ms))
   | ["mark"] => some .mark
@@ -195,11 +196,11 @@ namespace Hd.Pool
     a burst of `n` concurrent HTTP/1.1 requests to one origin, all answered and released; then, after `wait` ms,
     one more request. Observed: connections still open once the burst has settled, and connections accepted in all.
     The model runs the same history through the pool model with that configuration.
-    `cfgp <seq> <maxIdle> <idleTimeout ms|-> <n> <wait ms> | <open> <total>` -/
+    `cfgp <seq> <maxIdle> <idleTimeout ms|-> <n> <wait ms> <request timeout|-> <redirects n|s|l> <ua 0|1> | <open> <total> ua=.. slow=.. redir=..` -/
 def cfgpLine (inp obs : List String) : Bool × Bool × String × String :=
   if obs == ["unreliable"] then (true, true, "-", "skipped") else
   match inp, obs with
-  | [_seq, mi, it, nT, waitT], [openT, totalT] =>
+  | [_seq, mi, it, nT, waitT, reqT, red, ua], [openT, totalT, uaO, slowO, redirO] =>
     let cfg : Config := { idleTimeout := idleTok it, maxIdle := natTok mi, cap := true, lax := false }
     let n := natTok nT
     let rs := List.range n
@@ -213,11 +214,19 @@ def cfgpLine (inp obs : List String) : Bool × Bool × String × String :=
     let s := (step s (.issue 100 0 false)).1
     let (_, res) := step s (.poll 100)
     let total := match res with | .got _ _ => n | _ => n + 1
-    let shown := s!"{kept} {total}"
+    -- the rest of the configuration: the user agent as given (or the crate's own), the request timeout against a handler
+    -- that takes 400 ms (`Timeout.pollOnce`'s verdict at the deadline), redirects followed unless switched off
+    let uaM := s!"ua={ua}"
+    let slowM := match reqT.toNat? with | some d => if d < 400 then "slow=timeout" else "slow=ok" | none => "slow=ok"
+    let redirM := if red == "n" then "redir=302" else "redir=200"
+    let shown := s!"{kept} {total} {uaM} {slowM} {redirM}"
     let okOpen := openT == toString kept
     let okTotal := totalT == toString total
     let cls := (if natTok openT > kept then ["C15/configured-idle-limit-not-enforced"] else if !okOpen then ["C04/connection-destroyed"] else []) ++
-      (if okOpen && !okTotal then [if natTok totalT > total then "C04/idle-not-reused" else "C05/expired-connection-kept-or-used"] else [])
+      (if okOpen && !okTotal then [if natTok totalT > total then "C04/idle-not-reused" else "C05/expired-connection-kept-or-used"] else []) ++
+      (if slowO != slowM then [if slowM == "slow=timeout" then "C19/resolved-late" else "C19/inner-result-replaced-by-timeout"] else []) ++
+      (if uaO != uaM then ["cfg/user-agent-not-as-configured"] else []) ++
+      (if redirO != redirM then ["cfg/redirect-policy-not-as-configured"] else [])
     (cls.isEmpty, cls.isEmpty, if cls.isEmpty then "-" else ",".intercalate cls, shown)
   | _, _ => (false, false, "C15/unparsable-observation", "")
 
